@@ -134,11 +134,24 @@ TargetOK(pre, c, post) ==
     [] c.op = "LinComb" -> IsSpl(post[c.dst]) /\ LinCombPost(c.cs, [i \in DOMAIN c.srcs |-> AsSpl(pre[c.srcs[i]])], AsSpl(post[c.dst]))
     [] c.op \in {"Eval", "BF"} -> TRUE
 
+\* Operands handed over as rvalues (std::move(x); field rv: 1 = first / only
+\* operand, 2 = second operand, for Scale also 2 = k * std::move(x), 3 = std::move(x) / k).
+\* The pinned code has no rvalue overloads, so Eff leaves them alone; the
+\* contract allows a call to consume them, but then they must be left as a
+\* moved-from object is: valid, interval-free, on the same grid (C10).
+RvSlots(c) ==
+  IF "rv" \notin DOMAIN c \/ c.rv = 0 THEN {}
+  ELSE CASE c.op \in {"Scale", "Neg", "Apply"} -> {c.a}
+         [] c.op \in {"Add", "Sub", "Mul", "Union", "Inter"} -> {IF c.rv = 1 THEN c.a ELSE c.b}
+         [] c.op \in {"AddAssign", "SubAssign"} -> {c.src}
+         [] OTHER -> {}
+RvOK(pre, c, post) == \A i \in RvSlots(c) : i = c.dst \/ post[i] = pre[i] \/ MovedFromOK(pre[i], post[i])
+
 \* slots a successful step may change (C14: nothing else)
 Targets(c) ==
   CASE c.op \in {"Move", "MoveAssign"} -> {c.dst, c.src}
     [] c.op \in {"Eval", "BF"} -> {}
-    [] OTHER -> {c.dst}
+    [] OTHER -> {c.dst} \cup RvSlots(c)
 
 MustRefuse(pre, c) ==
   CASE c.op = "GridNew" -> ~GridValid(c.pts)
